@@ -173,7 +173,9 @@ class WriteMultipleRegistersRequest(ModbusRequest):
         self.address, self.count, \
         self.byte_count = struct.unpack('>HHB', data[:5])
         self.values = []  # reset
-        for idx in range(5, (self.count * 2) + 5, 2):
+        # only decode the registers that are completely present; a quantity
+        # that contradicts the byte count is rejected by execute()
+        for idx in range(5, min((self.count * 2) + 5, len(data) - 1), 2):
             self.values.append(struct.unpack('>H', data[idx:idx + 2])[0])
 
     def execute(self, context):
